@@ -159,7 +159,8 @@ func runReport(name, ns, fs, streams string, zeroDate int) (result string) {
 	go func() { wg.Wait(); close(fin) }()
 	select {
 	case <-fin:
-	case <-time.After(caseTimeout):
+	case <-time.After(curTimeout()):
+		noteTimeout()
 		close(prod.stop)
 		return "timeout"
 	}
